@@ -351,6 +351,13 @@ class EIG(BaseRoutine):
                 param.v[pos] = val[idx]
                 logger.debug(f"Set {param.name} = {param.v[pos]}")
 
+            # `TDS.init()` returns immediately once initialized. Re-initialize
+            # from the power flow solution so that the operating point, the
+            # Jacobians and the time constants in `dae.Tf` follow the new values.
+            # Initial values are added to the DAE arrays, so clear them first.
+            self.system.TDS.initialized = False
+            self.system.dae.x[:] = 0
+            self.system.dae.y[:] = 0
             self.system.TDS.init()
             self.system.TDS.itm_step()
             self.calc_As()
